@@ -37,7 +37,7 @@ Next ==
   /\ l < Len(Hands[tid].steps)
   /\ LET H == Hands[tid]
          ev == H.steps[l + 1]
-     IN /\ Force(StepOK(tid, l + 1, H.cfg, S, ev))
+     IN /\ Force(StepOK(tid, l + 1, CfgOf(H), S, ev))
         /\ S' = NextState(S, ev)
         /\ l' = l + 1
         /\ UNCHANGED tid
